@@ -230,5 +230,179 @@ func abbrev(ss []string) string {
 	return fmt.Sprintf("%q", out)
 }
 
+// runRefusals: strings (or JSON objects) written through a frame codec + format codec on a small non-blocking queue whose
+// sender starts late: writes that find the queue full are refused with an exception. Every message whose write raised
+// nothing must be received identical, in order, and nothing else (a refused message leaves nothing on the wire).
+func runRefusals(c *core.Ctx) {
+	total := c.Scale(96, 1920)
+	for i := 0; i < total; i++ {
+		if !c.Mine(i) {
+			continue
+		}
+		id := fmt.Sprintf("refusal%d", i)
+		if !c.Case(id) {
+			continue
+		}
+		rng := c.Rand("refusal", i)
+		mk := []func() netty.Handler{
+			func() netty.Handler { return frame.LengthFieldCodec(binary.BigEndian, 1<<20, 0, 4, 0, 4) },
+			func() netty.Handler { return frame.VarintLengthFieldCodec(1 << 20) },
+			// (not the delimiter codec: it hands a text message on as a stream, and a stream that meets a full non-blocking
+			// queue half-way is cut by the channel - C14's refusal sequences deal with that)
+		}[i%2]
+		useJSON := (i/2)%2 == 1
+		fm := func() netty.Handler {
+			if useJSON {
+				return format.JSONCodec(true, false)
+			}
+			return format.TextCodec()
+		}
+		q := 1 + rng.Intn(4)
+		wrec := &keepOpen{}
+		plan := []mon.Step{{At: "x1", Occ: 1, Kind: mon.Gate, Until: "go", UntilCount: 1, Timeout: 30 * time.Millisecond}}
+		wrig := mon.NewRig(mon.RigOpts{Mode: mon.NonBlock, Queue: q, Plan: plan, Handlers: []netty.Handler{mk(), fm(), wrec}})
+		var want []string
+		n := q + 2 + rng.Intn(4)
+		for k := 0; k < n; k++ {
+			text := fmt.Sprintf("message-%d-%d-%s", i, k, strings.Repeat("x", rng.Intn(60)))
+			var msg interface{} = text
+			if useJSON {
+				msg = map[string]interface{}{"id": text}
+			}
+			wrec.mu.Lock()
+			before := len(wrec.excs)
+			wrec.mu.Unlock()
+			wrig.Ch.Write(msg)
+			wrec.mu.Lock()
+			refused := len(wrec.excs) > before
+			wrec.mu.Unlock()
+			if refused {
+				c.Count("refusal_writes_refused", 1)
+			} else {
+				want = append(want, text)
+			}
+			if k == q+1 {
+				// the sender gets going: the rest finds room again
+				wrig.S.Mark("go")
+				wrig.Ex.WaitOutstanding(1, 5*time.Second)
+			}
+		}
+		wrig.S.Mark("go")
+		wrig.Ex.WaitOutstanding(1, 5*time.Second)
+		wire := wrig.T.Wire()
+		wrig.Dispose()
+		rrec := &keepOpen{}
+		tr := mon.NewRecTransport()
+		for w := wire; len(w) > 0; {
+			m := 1 + rng.Intn(len(w))
+			tr.Feed(mon.ReadStep{Data: w[:m]})
+			w = w[m:]
+		}
+		rrig := mon.NewRig(mon.RigOpts{Mode: mon.Sync, NoPark: true, NoHooks: true, Tr: tr, Handlers: []netty.Handler{mk(), fm(), rrec}})
+		for dl := time.Now().Add(10 * time.Second); !(tr.ScriptExhausted() && tr.InRead() > 0) && !tr.IsClosed() && time.Now().Before(dl); {
+			time.Sleep(50 * time.Microsecond)
+		}
+		rrig.Ch.Close(nil)
+		rrig.Ex.WaitOutstanding(0, 5*time.Second)
+		rrig.Dispose()
+		rrec.mu.Lock()
+		var got []string
+		for _, m := range rrec.msgs {
+			if mm, ok := m.(map[string]interface{}); ok {
+				got = append(got, fmt.Sprint(mm["id"]))
+			} else {
+				got = append(got, fmt.Sprint(m))
+			}
+		}
+		nexc := len(rrec.excs)
+		rrec.mu.Unlock()
+		c.Count("refusal_sequences", 1)
+		c.Sig("refusal", i%2, useJSON, q, len(want))
+		if fmt.Sprint(got) != fmt.Sprint(want) {
+			c.Violation("C16:roundtrip-mismatch-after-a-refused-write", id,
+				fmt.Sprintf("%s + %s codec on a non-blocking queue of %d with a late sender: %d of %d writes were accepted; received %s, want %s (%d exceptions on the reading side)", []string{"LengthFieldCodec", "VarintLengthFieldCodec"}[i%2], map[bool]string{true: "json", false: "text"}[useJSON], q, len(want), n, abbrev(got), abbrev(want), nexc),
+				map[string]interface{}{"queue": q})
+		}
+	}
+}
+
+// runLengthEdges: strings whose length sits on the capacity edge of a 1- or 2-byte length field (255/256/257,
+// 65535/65536/65537) written through LengthFieldCodec + TextCodec. A write may be refused with an exception (the length
+// does not fit); every string whose write raised nothing must be received identical, in order, and nothing else.
+func runLengthEdges(c *core.Ctx) {
+	total := c.Scale(48, 960)
+	for i := 0; i < total; i++ {
+		if !c.Mine(i) {
+			continue
+		}
+		id := fmt.Sprintf("length-edge%d", i)
+		if !c.Case(id) {
+			continue
+		}
+		rng := c.Rand("length-edge", i)
+		width := 1 + i%2
+		capv := 1<<(8*uint(width)) - 1
+		strip := []int{width, 0}[(i/2)%2]
+		mk := func() netty.Handler { return frame.LengthFieldCodec(binary.BigEndian, 1<<20, 0, width, 0, strip) }
+		// writer side
+		wrec := &keepOpen{}
+		wrig := mon.NewRig(mon.RigOpts{Mode: mon.Sync, NoHooks: true, Handlers: []netty.Handler{mk(), format.TextCodec(), wrec}})
+		var want []string
+		var sizes []int
+		for k, n := 0, 3+rng.Intn(3); k < n; k++ {
+			size := []int{capv - 1, capv, capv + 1, capv + 2, 3, 40}[rng.Intn(6)]
+			body := make([]byte, size)
+			for j := range body {
+				body[j] = byte('a' + (k+j)%26)
+			}
+			before := len(wrec.excs)
+			wrig.Ch.Write(string(body))
+			wrec.mu.Lock()
+			refused := len(wrec.excs) > before
+			wrec.mu.Unlock()
+			sizes = append(sizes, size)
+			if refused {
+				c.Count("length_edge_writes_refused", 1)
+				continue
+			}
+			if strip == 0 {
+				want = append(want, string(append(binary.BigEndian.AppendUint16(nil, uint16(size))[2-width:], body...)))
+			} else {
+				want = append(want, string(body))
+			}
+		}
+		wire := wrig.T.Wire()
+		wrig.Dispose()
+		// reader side
+		rrec := &keepOpen{}
+		tr := mon.NewRecTransport()
+		for w := wire; len(w) > 0; {
+			n := 1 + rng.Intn(len(w))
+			tr.Feed(mon.ReadStep{Data: w[:n]})
+			w = w[n:]
+		}
+		rrig := mon.NewRig(mon.RigOpts{Mode: mon.Sync, NoPark: true, NoHooks: true, Tr: tr, Handlers: []netty.Handler{mk(), format.TextCodec(), rrec}})
+		for dl := time.Now().Add(10 * time.Second); !(tr.ScriptExhausted() && tr.InRead() > 0) && !tr.IsClosed() && time.Now().Before(dl); {
+			time.Sleep(50 * time.Microsecond)
+		}
+		rrig.Ch.Close(nil)
+		rrig.Ex.WaitOutstanding(0, 5*time.Second)
+		rrig.Dispose()
+		rrec.mu.Lock()
+		var got []string
+		for _, m := range rrec.msgs {
+			got = append(got, fmt.Sprint(m))
+		}
+		rrec.mu.Unlock()
+		c.Count("length_edge_sequences", 1)
+		c.Sig("length-edge", width, strip, fmt.Sprint(sizes))
+		if fmt.Sprint(got) != fmt.Sprint(want) {
+			c.Violation("C16:text-roundtrip-mismatch:length-field-capacity-edge", id,
+				fmt.Sprintf("LengthFieldCodec(%d-byte field, strip %d) + TextCodec, strings of sizes %v: the %d strings whose write raised no exception were received as %s, want %s", width, strip, sizes, len(want), abbrev(got), abbrev(want)),
+				map[string]interface{}{"field_width": width, "sizes": sizes})
+		}
+	}
+}
+
 var _ = binary.BigEndian
 var _ = json.Valid
